@@ -8,8 +8,8 @@ import sys
 def main():
     cfg = json.loads(sys.argv[1])
     passes = int(sys.argv[2]) if len(sys.argv) > 2 else 2
-    from vf.drivers import Stepper
-    st = Stepper(cfg, passes)
+    from vf.drivers import safe_stepper
+    st = safe_stepper(cfg, passes)
     print("\n@@STREAM@@" + json.dumps(st.run()))
 
 
